@@ -1,5 +1,5 @@
 import PvModel.Generated.Core
-/-! Pin obligation for C19: the parameter grid and the tuner.
+/-! Pin obligation for C19: the tuner and what is left of the parameter grid (`ParameterGrid.__iter__` / `__len__` are translated: R19).
 These functions are modelled by hand (not translated by `tools/py2lean.py`) and tied to the code by the correspondence suites. The regenerated
 facts carry a fingerprint of their source text (docstrings / comments removed, `ast.unparse` under /venv's Python); this theorem says the text is
 the one the model was last validated against. A change of any of them breaks it — the check then searches for a failing input; if none is found
@@ -8,7 +8,8 @@ namespace T19
 open Generated
 
 def expected : List (String × String) := [
-      ("hypertuner.py:ParameterGrid", "31b67deaceff2c8a"),
+      ("hypertuner.py:ParameterGrid.__init__", "afd2e886acc3abb8"),
+      ("hypertuner.py:ParameterGrid.__getitem__", "afb1f64f0d4cd716"),
       ("hypertuner.py:HyperTuner", "73f466ba353fb2e9"),
       ("enums.py:TaskType", "b3661363ca362f9f"),
       ("enums.py:ModeSolver", "4de7ea767a39ed87")]
